@@ -40,7 +40,7 @@ type RExp struct {
 }
 
 type SOp struct {
-	K     string   `json:"k"` // as op def mul muld app apps cp ms md lk2 call
+	K     string   `json:"k"` // as op def mul muld app apps cp ms md lk2 call rcv as2
 	L     *LExp    `json:"l,omitempty"`
 	R     *RExp    `json:"r,omitempty"`
 	C     int      `json:"c,omitempty"`
@@ -61,6 +61,7 @@ type SOp struct {
 	Rdx   bool     `json:"rdx,omitempty"`  // lk2 in the := form: x is already declared in the scope (assigned, not created)
 	Rdok  bool     `json:"rdok,omitempty"` // … same for ok
 	Sel   *LExp    `json:"sel,omitempty"`
+	Succ  bool     `json:"succ,omitempty"` // as2: the assertion holds (the interface value holds R); otherwise it holds a string
 	Wrap  bool     `json:"wrap,omitempty"` // rendered inside an immediately called function literal
 }
 
@@ -246,6 +247,10 @@ func (o *SOp) sexp() string {
 		return fmt.Sprintf("(lk2 %s %d %d %s %s %s %s %s)", b01(o.IsDef), o.X, o.Ok, o.M.sexp(), o.Ke.sexp(), zero(ty(o.T)).sexp(), b01(o.Rdx), b01(o.Rdok))
 	case "call":
 		return fmt.Sprintf("(call %s %s %s %d %s)", b01(o.IsDef), o.L.sexp(), o.Sel.sexp(), o.C, o.R.sexp())
+	case "rcv":
+		return fmt.Sprintf("(rcv %s %s %s)", b01(o.IsDef), o.L.sexp(), o.R.sexp())
+	case "as2":
+		return fmt.Sprintf("(as2 %s %d %d %s %s %s %s %s)", b01(o.IsDef), o.X, o.Ok, o.R.sexp(), b01(o.Succ), zero(ty(o.T)).sexp(), b01(o.Rdx), b01(o.Rdok))
 	}
 	panic("bad sop " + o.K)
 }
@@ -273,11 +278,11 @@ func (o *SOp) binds() ([]int, []*Type) {
 			}
 		}
 		return xs, ts
-	case "app", "apps", "call":
+	case "app", "apps", "call", "rcv":
 		if o.IsDef {
 			return []int{o.L.X}, []*Type{ty(o.T)}
 		}
-	case "lk2":
+	case "lk2", "as2":
 		if o.IsDef {
 			var xs []int
 			var ts []*Type
@@ -331,7 +336,8 @@ func (p *Prog) line() string {
 type render struct {
 	e     env
 	names map[int]string // overrides (the parameter of a generated function)
-	funcs []string       // generated helper functions (id / mut)
+	funcs []string       // generated helper functions (id / mut / any)
+	nchan int            // channels declared so far (rcv)
 	seenF map[string]bool
 	types map[string]*Type // types that need a show function
 }
@@ -495,6 +501,30 @@ func (r *render) stmt(o *SOp) string {
 		s = "delete(" + r.lexp(o.M) + ", " + r.iexp(o.Ke) + ")"
 	case "lk2":
 		s = r.name(o.X) + ", " + r.name(o.Ok) + asg + r.lexp(o.M) + "[" + r.iexp(o.Ke) + "]"
+	case "rcv":
+		// the value travels through a buffered channel of its own
+		t := ty(o.T)
+		r.nchan++
+		c := fmt.Sprintf("c%d", r.nchan)
+		s = fmt.Sprintf("%s := make(chan %s, 1); %s <- %s; %s%s<-%s", c, t.Src, c, r.rexp(o.R), r.dest(o.L), asg, c)
+	case "as2":
+		t := ty(o.T)
+		var e string
+		if o.Succ {
+			fn := "any" + t.mangle()
+			if !r.seenF[fn] {
+				r.seenF[fn] = true
+				r.funcs = append(r.funcs, fmt.Sprintf("func %s(x %s) interface{} { return x }\n", fn, t.Src))
+			}
+			e = fn + "(" + r.rexp(o.R) + ")"
+		} else {
+			if !r.seenF["anyNo"] {
+				r.seenF["anyNo"] = true
+				r.funcs = append(r.funcs, "func anyNo() interface{} { return \"no\" }\n")
+			}
+			e = "anyNo()"
+		}
+		s = r.name(o.X) + ", " + r.name(o.Ok) + asg + e + ".(" + t.Src + ")"
 	case "call":
 		t := ty(o.R.T)
 		fn := fmt.Sprintf("mut%d", len(r.funcs))
